@@ -59,6 +59,7 @@ FUNCTIONS = [
     ("json_object.c", "_json_object_set_string_len"),
     ("json_object.c", "json_object_get"),
     ("json_object.c", "json_object_put"),
+    ("linkhash.c", "lh_table_delete_entry"),
 ]
 
 
@@ -105,6 +106,7 @@ def ctype(t):
     return ("R", 0, False)
 
 
+FIELD_OFFSETS = {}     # ("struct lh_entry", "k") -> 0, filled per function by resolve_offsets
 RECORD_SIZES = {}      # "struct lh_entry" -> 40, filled per translation unit by resolve_sizes
 
 
@@ -421,6 +423,15 @@ class Fn:
             return self.ex(lv["inner"][0], env, k)
         if kind == "MemberExpr":
             base = lv["inner"][0]
+            bt = base.get("type", {})
+            bq = re.sub(r"\s+", " ", re.sub(r"\b(const|volatile)\b", "", bt.get("desugaredQualType", bt.get("qualType", ""))).strip())
+            rec = bq[:-1].strip() if lv.get("isArrow") and bq.endswith("*") else bq
+            off = 0 if rec.startswith("union ") else FIELD_OFFSETS.get((rec, lv["name"]))
+            if off is not None:
+                # the address of the member: the record's address plus the member's offset as clang lays it out
+                if lv.get("isArrow"):
+                    return self.ex(base, env, lambda tb, e: k(tb if off == 0 else "%s + %d" % (self.atom(tb), off), e))
+                return self.addr(self.strip(base), env, lambda tb, e: k(tb if off == 0 else "%s + %d" % (self.atom(tb), off), e))
             return self.ex(base, env, lambda tb, e: k("(CSem.field %s \"%s\")" % (self.atom(tb), lv["name"]), e))
         p = self.path_of(lv)
         if p is not None:
@@ -1080,6 +1091,31 @@ def record_types(n, acc):
     return acc
 
 
+def member_refs(n, acc):
+    """(record type, member) of every member access whose record type has a name"""
+    if isinstance(n, dict):
+        if n.get("kind") == "MemberExpr" and n.get("inner"):
+            bt = n["inner"][0].get("type", {})
+            bq = re.sub(r"\s+", " ", re.sub(r"\b(const|volatile)\b", "", bt.get("desugaredQualType", bt.get("qualType", ""))).strip())
+            rec = bq[:-1].strip() if n.get("isArrow") and bq.endswith("*") else bq
+            if re.fullmatch(r"struct \w+", rec):
+                acc.add((rec, n["name"]))
+        for c in n.get("inner", []):
+            member_refs(c, acc)
+    return acc
+
+
+def resolve_offsets(repo, cfg, src, refs):
+    refs = sorted(refs)
+    vals = resolve_enums(repo, cfg, src, ["__builtin_offsetof(%s, %s)" % r for r in refs])
+    out = {}
+    for r in refs:
+        v = vals.get("__builtin_offsetof(%s, %s)" % r)
+        if v is not None:
+            out[r] = v
+    return out
+
+
 def resolve_sizes(repo, cfg, src, recs):
     """sizeof of the record types the function indexes arrays of, evaluated by clang in the unit of `src`"""
     vals = resolve_enums(repo, cfg, src, ["sizeof(%s)" % r for r in sorted(recs)])
@@ -1162,6 +1198,8 @@ def generate(repo, cfg):
         ev = resolve_enums(repo, cfg, src, enum_names(ast, set()))
         RECORD_SIZES.clear()
         RECORD_SIZES.update(resolve_sizes(repo, cfg, src, record_types(ast, set())))
+        FIELD_OFFSETS.clear()
+        FIELD_OFFSETS.update(resolve_offsets(repo, cfg, src, member_refs(ast, set())))
         out.append(Fn(ast, fn, ev, identity_oracle(repo, cfg, src)).lean())
     out.append("end JsonC.Translated\n")
     return "\n".join(out)
